@@ -111,6 +111,30 @@ def translate(repo):
     flushed = sorted(ast.unparse(n.func.value) for n in ast.walk(disc)
                      if isinstance(n, ast.Call) and isinstance(n.func, ast.Attribute) and n.func.attr == 'flush')
     flushes_all = flushed == ['self.acl_packet_queue', 'self.iso_packet_queue', 'self.le_acl_packet_queue']
+    # handle -> queue lookup: get_data_packet_queue is a pure function of the CURRENT link tables (it reads
+    # self.connections / self.cis_links / self.bis_links and nothing else of self, and stores nothing), and the
+    # completed-packets loop obtains the queue from it (once per entry) and from nowhere else
+    look = _fn(hostc, 'get_data_packet_queue')
+    self_reads = sorted({n.attr for n in ast.walk(look) if isinstance(n, ast.Attribute)
+                         and isinstance(n.value, ast.Name) and n.value.id == 'self'})
+    stores = [n for n in ast.walk(look) if isinstance(n, (ast.Attribute, ast.Subscript))
+              and isinstance(n.ctx, (ast.Store, ast.Del))]
+    mutators = [n for n in ast.walk(look) if isinstance(n, ast.Call) and isinstance(n.func, ast.Attribute)
+                and n.func.attr in ('setdefault', 'update', 'pop', 'append', 'add', 'clear', '__setitem__')]
+    globals_ = [n for n in ast.walk(look) if isinstance(n, (ast.Global, ast.Nonlocal))]
+    decorated = bool(look.decorator_list)
+    lookup_stateless = (self_reads == ['bis_links', 'cis_links', 'connections'] and not stores and not mutators
+                        and not globals_ and not decorated)
+    ncp_lookups = [ast.unparse(n) for n in ast.walk(loops2[0]) if isinstance(n, ast.Call)] if len(loops2) == 1 else []
+    ncp_self_reads = sorted({n.attr for n in ast.walk(ncp) if isinstance(n, ast.Attribute)
+                             and isinstance(n.value, ast.Name) and n.value.id == 'self'})
+    lookup_used = (ncp_lookups.count('self.get_data_packet_queue(connection_handle)') == 1
+                   and ncp_self_reads == ['get_data_packet_queue', 'sco_links'])
+    # links enter / leave the tables only where the model says: remove_big flushes the link's own queue
+    rb = _fn(hostc, 'remove_big')
+    rb_flush = [ast.unparse(n) for n in ast.walk(rb) if isinstance(n, ast.Call) and isinstance(n.func, ast.Attribute)
+                and n.func.attr == 'flush']
+    rb_ok = rb_flush == ['bis_link.packet_queue.flush(bis_link.handle)']
     pipe = _cls(utils, 'FlowControlAsyncPipe')
     w, pause, resume, pump = (_fn(pipe, n) for n in ('write', 'pause', 'resume', 'pump'))
     p_in = _one_of(w, ['queue'], ['append', 'appendleft'])
@@ -128,7 +152,10 @@ Record shape := mkShape {{
   h_queues_from_reported_buffers : bool;      (* Host.reset builds each queue from the controller-reported length/count *)
   h_le_shares_acl_queue_when_no_le_buffers : bool;  (* LE buffer size 0/0 => le queue IS the acl queue *)
   h_completed_event_visits_every_entry : bool;     (* no return / break in the per-handle loop; one on_packets_completed call *)
-  h_disconnection_flushes_all_queues : bool
+  h_disconnection_flushes_all_queues : bool;
+  h_queue_lookup_is_stateless : bool;         (* get_data_packet_queue reads the three link tables only, stores nothing *)
+  h_completed_event_uses_the_lookup : bool;   (* one self.get_data_packet_queue(connection_handle) per entry, no other state *)
+  h_remove_big_flushes_own_queue : bool
 }}.
 Definition shape_of_source : shape := mkShape
   {'SLeft' if q_in == 'appendleft' else 'SRight'} {'SLeft' if q_out == 'popleft' else 'SRight'}
@@ -136,6 +163,7 @@ Definition shape_of_source : shape := mkShape
   {_b(_calls(enq, ['_check_queue']) >= 1)} {_b(_calls(flush, ['_check_queue']) >= 1)} {_b(_calls(done, ['_check_queue']) >= 1)}
   {'SLeft' if p_in == 'appendleft' else 'SRight'} {'SLeft' if p_out == 'popleft' else 'SRight'}
   {_b(_calls(w, ['check_pump']) >= 1)} {_b(_calls(pause, ['check_pump']) >= 1)} {_b(_calls(resume, ['check_pump']) >= 1)} {_b(_calls(pump, ['check_pump']) >= 1)}
-  {_b(queues_ok)} {_b(shares and share_cond_ok)} {_b(visits_all)} {_b(flushes_all)}.
+  {_b(queues_ok)} {_b(shares and share_cond_ok)} {_b(visits_all)} {_b(flushes_all)}
+  {_b(lookup_stateless)} {_b(lookup_used)} {_b(rb_ok)}.
 '''
     return text
